@@ -55,7 +55,7 @@ pub fn read_varint<R: Read>(reader: &mut R) -> io::Result<(u64, usize)> {
         value += byte_buf[0] as u64;
     }
 
-    Ok((value, (no_bytes + 1) as usize))
+    Ok((value, no_bytes as usize + 1))
 }
 
 /// Write a fixed 8-byte unsigned integer
